@@ -4,6 +4,9 @@ import DSProofs.Lemmas.WireHllRT
 namespace DS.Wire.Hll
 open DS.Wire DS.Wire.Reader
 
+theorem drop_append_of_length {a b : Bytes} {n : Nat} (h : a.length = n) : (a ++ b).drop n = b := by
+  subst h; simp
+
 /-- header bytes preceding the table / register area -/
 def dataStart : Img → Nat
   | .list _ => 8
